@@ -3,8 +3,9 @@
    Spec : Eql/RuleSpec.v  ([rdr]: ripple-down-rules interpreter on the written program, per element of the domain).
    Model: Eql/RuleBuild.v ([build]/[reify]: the heap surgery of refinement/alternative/next_rule while the with-blocks
           are written) + Eql/RuleEval.v ([run]: ExceptIf/Alternative/Next selection, concluded_before, descriptor).
-   Fragment: [Fb prog] = [Gb prog] (the surgery produced the written tree, every node once -- decidable, computed)
-             and no next_rule.  Outside: one refutation per defect class. *)
+   Fragment: [Fb prog] = [Gb prog] (the surgery produced the written tree, every node once -- decidable, computed;
+             since /repo 4511011 it holds for all 1210 skeletons with <= 4 branches, nesting <= 3) and no next_rule.
+             Outside: one refutation per open defect class (next_rule); the former surgery defects are regressions. *)
 From Coq Require Import List ZArith Bool Arith.
 From Krrood Require Import Eql.RuleSpec Eql.RuleEval Eql.RuleBuild Eql.RulePure Eql.RuleEvalProofs Eql.RuleSpecProofs Eql.RuleProofs.
 Import ListNotations.
@@ -52,26 +53,38 @@ Theorem C08_documented_shapes : forall c0 t0 c1 t1 c2 t2 c3 t3,
   Gb (Rule c0 t0 [(KRef, Rule c1 t1 [(KAlt, Rule c2 t2 [])]); (KAlt, Rule c3 t3 [])]) = true /\
   Gb (Rule c0 t0 [(KRef, Rule c1 t1 [(KRef, Rule c2 t2 []); (KAlt, Rule c3 t3 [])])]) = true /\
   Gb (Rule c0 t0 [(KAlt, Rule c1 t1 [(KAlt, Rule c2 t2 [(KAlt, Rule c3 t3 [])])])]) = true /\
-  Gb (Rule c0 t0 [(KNext, Rule c1 t1 [])]) = true.
+  Gb (Rule c0 t0 [(KNext, Rule c1 t1 [])]) = true /\
+  (* shapes that were built wrongly before commit 4511011 *)
+  Gb (Rule c0 t0 [(KAlt, Rule c1 t1 []); (KAlt, Rule c2 t2 []); (KAlt, Rule c3 t3 [])]) = true /\
+  Gb (Rule c0 t0 [(KRef, Rule c1 t1 [(KRef, Rule c2 t2 [])])]) = true /\
+  Gb (Rule c0 t0 [(KAlt, Rule c1 t1 [(KRef, Rule c2 t2 [])])]) = true /\
+  Gb (Rule c0 t0 [(KRef, Rule c1 t1 []); (KRef, Rule c2 t2 [])]) = true /\
+  Gb (Rule c0 t0 [(KAlt, Rule c1 t1 []); (KRef, Rule c2 t2 [])]) = true /\
+  Gb (Rule c0 t0 [(KRef, Rule c1 t1 []); (KRef, Rule c2 t2 []); (KAlt, Rule c3 t3 [])]) = true /\
+  Gb (Rule c0 t0 [(KAlt, Rule c1 t1 []); (KRef, Rule c2 t2 []); (KAlt, Rule c3 t3 [])]) = true.
 Proof. exact documented_shapes. Qed.
 
-(* outside the fragment: one witness per defect class (the model is the faithful restatement of the code) *)
-Theorem C08_refuted_alt3 :
-  agrees w_alt3 W8 = false /\ In (2, 2) (rdr w_alt3 W8) /\ ~ In (2, 2) (model_tags w_alt3 W8).
-Proof. exact refuted_alt3. Qed.
-Theorem C08_refuted_ref_nested :
-  (agrees w_refref W8 = false /\ In (2, 3) (rdr w_refref W8) /\ ~ In (2, 3) (model_tags w_refref W8)) /\
-  (agrees w_altref W8 = false /\ In (2, 3) (rdr w_altref W8) /\ ~ In (2, 3) (model_tags w_altref W8)).
-Proof. exact refuted_ref_nested. Qed.
-Theorem C08_refuted_ref_second :
-  (agrees w_ref2 W8 = false /\ In (2, 2) (rdr w_ref2 W8) /\ ~ In (2, 2) (model_tags w_ref2 W8)) /\
-  (agrees w_alt_ref W8 = false /\ In (1, 1) (rdr w_alt_ref W8) /\ ~ In (1, 1) (model_tags w_alt_ref W8)).
-Proof. exact refuted_ref_second. Qed.
+(* regression witnesses of the repaired surgery defects C08-a, b, b2, c, c2: now inside the fragment and right *)
+Theorem C08_fixed_surgery :
+  (Fb w_alt3 = true /\ agrees w_alt3 W8 = true /\ In (2, 2) (model_tags w_alt3 W8)) /\
+  (Fb w_refref = true /\ agrees w_refref W8 = true /\ In (2, 3) (model_tags w_refref W8)) /\
+  (Fb w_altref = true /\ agrees w_altref W8 = true /\ In (2, 3) (model_tags w_altref W8)) /\
+  (Fb w_ref2 = true /\ agrees w_ref2 W8 = true /\ In (2, 2) (model_tags w_ref2 W8)) /\
+  (Fb w_alt_ref = true /\ agrees w_alt_ref W8 = true /\ In (1, 1) (model_tags w_alt_ref W8)).
+Proof. exact fixed_surgery. Qed.
+
+(* outside the fragment: one witness per open defect class (the model is the faithful restatement of the code) *)
 (* next_rule: the tree is built as written (Gb holds), the selector drops the additional conclusion *)
 Theorem C08_refuted_next :
   (Gb w_next = true /\ agrees w_next W8 = false /\ In (1, 1) (rdr w_next W8) /\ ~ In (1, 1) (model_tags w_next W8)) /\
   (Gb w_alt_next = true /\ agrees w_alt_next W8 = false /\ In (2, 1) (rdr w_alt_next W8) /\ ~ In (2, 1) (model_tags w_alt_next W8)).
 Proof. exact refuted_next. Qed.
+
+(* C08-g: an alternative written after a next_rule fires for elements for which an earlier branch fired *)
+Theorem C08_refuted_next_alt :
+  Gb w_next_alt = true /\ agrees w_next_alt W8 = false /\
+  ~ In (2, 0) (rdr w_next_alt W8) /\ In (2, 0) (model_tags w_next_alt W8).
+Proof. exact refuted_next_alt. Qed.
 
 Example C08_nonvacuous :
   Fb ex_prog = true /\
@@ -85,7 +98,6 @@ Print Assumptions C08_ruleeval_ok.
 Print Assumptions C08_tree_is_rdr.
 Print Assumptions C08_no_branch_ignored.
 Print Assumptions C08_documented_shapes.
-Print Assumptions C08_refuted_alt3.
-Print Assumptions C08_refuted_ref_nested.
-Print Assumptions C08_refuted_ref_second.
+Print Assumptions C08_fixed_surgery.
 Print Assumptions C08_refuted_next.
+Print Assumptions C08_refuted_next_alt.
